@@ -105,24 +105,43 @@ def handle (op : String) (args : List String) (impl : String) : Option Verdict :
         let hs : Option (List String) :=
           if hashes = "x" then none else some ((items hashes ",").map fun h => if h = "E" then "" else h)
         let fetched ← (if body = "x" then some Fetched.error else (fromHex body).map Fetched.body)
-        pure (orc, (⟨hs, fetched, storeOk = "1"⟩ : Ev))
+        pure (hashes == "B", orc, (⟨hs, fetched, storeOk = "1"⟩ : Ev))
       | _ => none) | return bad
     let st0 := adopt t0
-    -- each call has its own decrypt/parse oracle value (the parameters of the model, fed from the real library calls)
-    let step := fun (acc : St × List String × List Topo) (x : Option (List Nat × Int) × Ev) =>
-      let env : Env := ⟨Sha256.sha256, id, fun _ => x.1⟩
-      let (st', oc) := refresh env acc.1 x.2
-      (st', acc.2.1 ++ [match oc with | .done => "done" | .panic => "panic"],
-        acc.2.2 ++ (match adoptable env x.2 with | some t => [t] | none => []))
-    let (st1, ocs, adoptables) := parsed.foldl step (st0, [], [])
-    let m := ",".intercalate ocs ++ "|" ++ showSt st1
-    -- property on the implementation's output: the final state is the initial one or the adoption of an announced topology
-    let ok := match impl.splitOn "|" with
-      | _ :: rest => match parseSt rest with
-        | some st' => st' == st0 || adoptables.any (fun t => st' == adopt t)
-        | none => false
-      | _ => false
-    return ⟨m, ok, s!"refreshseq:n={parsed.length}:adoptable={min adoptables.length 3}:panics={ocs.any (· == "panic")}"⟩
+    -- each call has its own decrypt/parse oracle value (the parameters of the model, fed from the real library calls);
+    -- the model is history free: a call's effect depends on the state and on that call's inputs only
+    let envOf := fun (orc : Option (List Nat × Int)) => (⟨Sha256.sha256, id, fun _ => orc⟩ : Env)
+    let step := fun (acc : St × List String) (x : Bool × Option (List Nat × Int) × Ev) =>
+      if x.1 then
+        -- start-up style call NetworkTopology(""): result discarded, nothing may change (a panic is possible: short body)
+        let oc := match provider (envOf x.2.1) "" x.2.2.fetched with | .panic => "panic" | _ => "done"
+        (acc.1, acc.2 ++ [oc ++ "|" ++ showSt acc.1])
+      else
+        let (st', oc) := refresh (envOf x.2.1) acc.1 x.2.2
+        (st', acc.2 ++ [(match oc with | .done => "done" | .panic => "panic") ++ "|" ++ showSt st'])
+    let (_, outs) := parsed.foldl step (st0, [])
+    let m := "#".intercalate outs
+    -- property on the implementation's output, call by call: the observed state after a call is the observed state before
+    -- it, or the adoption of the topology THAT call was entitled to adopt
+    let implSteps := impl.splitOn "#"
+    let ok := implSteps.length == parsed.length && Id.run do
+      let mut prev := st0
+      let mut good := true
+      for (x, o) in parsed.zip implSteps do
+        match o.splitOn "|" with
+        | _ :: rest =>
+          match parseSt rest with
+          | some st' =>
+            if x.1 then
+              good := good && st' == prev
+            else
+              good := good && decide (RefreshOk (envOf x.2.1) prev x.2.2 st')
+            prev := st'
+          | none => good := false
+        | _ => good := false
+      return good
+    let nAdopt := (parsed.filter fun x => !x.1 && (adoptable (envOf x.2.1) x.2.2).isSome).length
+    return ⟨m, ok, s!"refreshseq:n={min parsed.length 4}:adoptable={min nAdopt 3}:boot={parsed.any (·.1)}"⟩
   | "stale", [re] => some <| Id.run do
     -- B's topology after the refresh is [1,2]: a NEW connection from A = peer 0 must be refused (inside the statement);
     -- a connection accepted while A was a member is not re-examined (outside the statement: observed, not constrained)
